@@ -7,7 +7,7 @@
 From Coq Require Import ZArith List Bool Permutation.
 Import ListNotations.
 Require Import Grist.Model.Sched Grist.Proofs.Sched_proofs Grist.Proofs.Sched_conf_proofs
-  Grist.Proofs.Sched_engine_proofs.
+  Grist.Proofs.Sched_engine_proofs Grist.Proofs.Sched_inval_proofs.
 Open Scope Z_scope.
 
 (* Every run is finite: no infinite sequence of scheduler transitions exists, for any program (cyclic or
@@ -48,6 +48,23 @@ Theorem sched_confluent : forall P s r1 r2,
   forall c, val r1 c = val r2 c.
 Proof. exact sched_confluent_strict. Qed.
 
+(* The same for formulas WITH exception handlers, under the narrowest condition on a handler: it does not turn a
+   CircularRefError it reads into a result (it may catch every other error, and [strict_prog] is the special
+   case without handlers) ... *)
+Theorem sched_confluent_handlers : forall P s r1 r2,
+  cre_strict_prog P -> wf_init P s -> complete_run P s r1 -> complete_run P s r2 ->
+  forall c, val r1 c = val r2 c.
+Proof. exact sched_confluent_cre. Qed.
+
+(* ... and the condition is exact handler by handler: ANY continuation k that answers a CircularRefError with an
+   ordinary result is order-dependent in the two-cell document  a = <read b, continue with k>,  b = $a. *)
+Theorem handler_gap_exact : forall (k : value -> itree) (z : Z),
+  k (VErr CircularRef) = Ret z ->
+  exists r1 r2,
+    wf_init (gap_prog k) gap_init /\ complete_run (gap_prog k) gap_init r1 /\ complete_run (gap_prog k) gap_init r2 /\
+    val r1 ga = VErr CircularRef /\ val r2 ga = VInt z.
+Proof. exact handler_gap. Qed.
+
 (* C06 for the engine's strategy: for every permutation pi of the work-item order the run completes
    and yields the same values as the original order (fuel: any number of iterations above a bound). *)
 Theorem C06 : forall P s order pi,
@@ -76,6 +93,37 @@ Proof.
   split; [exact F1|]. split; [exact F2|]. intros c. symmetry. apply E.
 Qed.
 
+Theorem C06_handlers : forall P s order pi,
+  cre_strict_prog P -> wf_init P s -> (forall c, In c (dirty s) -> In c order) -> Permutation order pi ->
+  exists n, forall m1 m2, (n <= m1)%nat -> (n <= m2)%nat ->
+    final (run P (engine_strategy P order) m1 s) /\ final (run P (engine_strategy P pi) m2 s) /\
+    forall c, val (run P (engine_strategy P pi) m2 s) c = val (run P (engine_strategy P order) m1 s) c.
+Proof.
+  intros P s order pi Hs Hw Ho Hp.
+  destruct (engine_order_irrelevant_cre P s order pi Hw Ho
+              (fun c H => Permutation_in c Hp (Ho c H)) Hs) as [n Hn].
+  exists n. intros m1 m2 H1 H2. destruct (Hn m1 m2 H1 H2) as [F1 [F2 E]].
+  split; [exact F1|]. split; [exact F2|]. intros c. symmetry. apply E.
+Qed.
+
+(* The engine's row loop iterates a set that nested calls shrink and so sometimes skips a row that
+   [engine_strategy] would evaluate: irrelevant for the result.  Every strategy whose run completes, and every
+   label sequence the model accepts (a recorded trace that passes check_trace), ends in the values of the modelled
+   engine strategy. *)
+Theorem row_loop_detail_irrelevant : forall P s order strat n,
+  cre_strict_prog P -> wf_init P s -> (forall c, In c (dirty s) -> In c order) ->
+  final (run P strat n s) ->
+  exists m, final (run P (engine_strategy P order) m s) /\
+            forall c, val (run P strat n s) c = val (run P (engine_strategy P order) m s) c.
+Proof. exact any_strategy_same_result. Qed.
+
+Theorem accepted_trace_same_result : forall P s order ls r,
+  cre_strict_prog P -> wf_init P s -> (forall c, In c (dirty s) -> In c order) ->
+  replay P ls s = Some r -> final r ->
+  exists m, final (run P (engine_strategy P order) m s) /\
+            forall c, val r c = val (run P (engine_strategy P order) m s) c.
+Proof. exact any_replay_same_result. Qed.
+
 (* "The stored actions differ at most in order": a cell's value changes at most once in an update loop,
    namely when the cell is computed, so the changes a run records are, as a multiset, the difference between
    initial and final values ([calc_changes]) - and that difference is the same for all complete runs. *)
@@ -97,6 +145,59 @@ Qed.
 Theorem sched_progress_checks : forall P v d s, steps P (init_state v d) s -> (nexp s <= ndone s)%nat.
 Proof. exact progress_checks_hold. Qed.
 
+(* ---- lookups: "subject only to its own rule that lookup indexes go first" ---------------------------------
+   With lookups the loop also INVALIDATES cells while it runs ([xstep]: a lookup index cell that finds a changed key
+   makes the cells that looked that key up dirty).  The engine remembers the cells it has computed in the loop and
+   never recomputes them, so an invalidation that arrives after its target was computed is lost ([xlost]). *)
+
+(* the loop still terminates: every cell is computed at most once, whatever is invalidated meanwhile *)
+Theorem lookups_loop_terminates : forall P isidx iskey U,
+  (forall c, P c <> None -> In c U) ->
+  well_founded (fun x' x => xinv U x /\ xstep P isidx iskey x x' /\ x' <> x).
+Proof. exact xstep_wf. Qed.
+
+(* what "lookups first" buys: if cells other than index/key cells are computed only when no index cell is dirty
+   any more, no invalidation is ever lost ... *)
+Theorem lookups_first_no_lost_invalidation : forall P isidx iskey s x',
+  lf_steps P isidx iskey (mkx s [] false) x' -> xlost x' = false.
+Proof. exact lookups_first_no_lost_from_start. Qed.
+
+(* ... the engine's strategy with the index cells first in its priority order is such a schedule (index and key
+   formulas read only key and data cells: no key column is computed through a lookup), whatever invalidations
+   are interleaved with it ... *)
+Theorem engine_order_is_lookups_first : forall P isidx iskey order x x',
+  (forall c t, P c = Some t -> special isidx iskey c = true -> reads_key P iskey t) ->
+  (forall s c, first_dirty order s = Some c -> idx_dirty isidx s = true -> isidx (fst c) = true) ->
+  eng_xsteps P isidx iskey order x x' ->
+  has_formulas P (xst x) -> stack_special isidx iskey (xst x) -> no_loss_inv isidx iskey x ->
+  xsteps P isidx iskey x x' /\ no_loss_inv isidx iskey x'.
+Proof. intros P isidx iskey order x x' H1 H2. apply engine_lookups_first_no_lost; assumption. Qed.
+
+(* ... and once no index cell is dirty the rest of the loop is a run of the plain scheduler: from a state that is
+   consistent then (invalidation complete - the subject of C05), every continuation ends in the same values *)
+Theorem after_lookups_confluent : forall P isidx iskey x r1 r2,
+  cre_strict_prog P -> idx_dirty isidx (xst x) = false -> Inv P (val (xst x)) (xst x) ->
+  xsteps P isidx iskey x r1 -> final (xst r1) -> xsteps P isidx iskey x r2 -> final (xst r2) ->
+  forall c, val (xst r1) c = val (xst r2) c.
+Proof.
+  intros P isidx iskey x r1 r2 Hs Hi HI H1 F1 H2 F2 c.
+  pose proof (cre_tame P (val (xst x)) Hs) as Ht.
+  eapply consistent_unique; eapply result_after_lookups; eassumption.
+Qed.
+
+(* Without the rule the result is wrong, not merely different: Z = len(T.lookupRecords(D=$D)), B = $Z + $E after
+   [UpdateRecord 2 {D: 1}, UpdateRecord 1 {E: 9}]; with lookups last B[1] is computed from the stale Z[1] and the later
+   invalidation is lost (B[1] = 10), with lookups first B[1] = 11, the from-scratch value.  The check replays both
+   orders on the real engine. *)
+Theorem lookups_first_is_needed :
+  exists x1 x2,
+    xsteps lk_prog lk_isidx lk_iskey lk_start x1 /\ final (xst x1) /\ xlost x1 = true /\
+    val (xst x1) (11,1) = VInt 10 /\
+    xsteps lk_prog lk_isidx lk_iskey lk_start x2 /\ final (xst x2) /\ xlost x2 = false /\
+    val (xst x2) (11,1) = VInt 11 /\
+    scr lk_prog (val_of lk_vals) 5 (11,1) = Some (VInt 11).
+Proof. exact lookups_last_loses_an_invalidation. Qed.
+
 (* The statement at full strength (every program, also formulas with try/except on a cycle) ... *)
 Definition C06_all_programs : Prop := forall P s r1 r2,
   wf_init P s -> complete_run P s r1 -> complete_run P s r2 -> forall c, val r1 c = val r2 c.
@@ -116,6 +217,10 @@ Qed.
 Theorem grammar_programs_strict : forall cols rows,
   forallb (fun ce => no_try (snd ce)) cols = true -> strict_prog (prog_of cols rows).
 Proof. exact prog_of_strict. Qed.
+
+Theorem grammar_programs_cre_strict : forall cols rows,
+  forallb (fun ce => no_cre_catch (snd ce)) cols = true -> cre_strict_prog (prog_of cols rows).
+Proof. exact prog_of_cre_strict. Qed.
 
 Theorem fresh_document_wf_init : forall cols rows vals,
   wf_init (prog_of cols rows) (init_state (val_of vals) (formula_cells cols rows)).
@@ -149,6 +254,10 @@ Example ex_two_orders :
   values_on cells (run P (engine_strategy P cells) 100 ex_init) /\
   run_labels P (engine_strategy P (rev cells)) 100 ex_init <> run_labels P (engine_strategy P cells) 100 ex_init.
 Proof. split; [vm_compute; reflexivity|]. split; [vm_compute; reflexivity | vm_compute; discriminate]. Qed.
+
+Example ex_handler_hypothesis :
+  cre_strict_prog (prog_of [(10, ETryOther (EAdd (ECol 11) EDiv0) 7); (11, ECol 10)] [1; 2]).
+Proof. apply prog_of_cre_strict. reflexivity. Qed.
 
 Example ex_levelled : levelled (fun n => Z.to_nat n) [(10, EAdd (ECol 1) (ERef 2 1)); (11, ETry (ECol 10) 0)] = true.
 Proof. reflexivity. Qed.
